@@ -29,6 +29,7 @@ type Program struct {
 	CG      *callgraph.Graph
 	Funcs   []*ssa.Function // every Helios source function incl. closures, sorted
 	inScope map[string]bool // import closure of cmd/helios
+	qual    bool            // Desc qualification toggle (see DescQ)
 }
 
 // LoadProgram loads ./... under dir.  overlay (may be nil) replaces file contents in memory
